@@ -1,5 +1,6 @@
 import SgModel.Lemmas.AlgoCert
 import SgModel.Lemmas.AlgoView
+import SgModel.Lemmas.AlgoMstExch
 /-!
 # C26 — graph algorithms match their reference definitions
 
@@ -10,8 +11,9 @@ not appear: the generators use integer weights, on which the Rust `f64` arithmet
 Shape (DESIGN §6 Group E): for WCC/SCC/triangles/LCC/projection the reference function or
 the implementation's enumeration is proved equal to the definition; for shortest paths and
 max-flow the **certificate checker** is proved sound for every input and the driver checks
-a certificate for each concrete answer of the implementation; for MST the spanning-tree
-certificate is proved sound and minimality is *not* proved (`C26_mst_partial`).
+a certificate for each concrete answer of the implementation; for MST the certificate
+(spanning tree of node 0's component + the cycle property) is proved to imply minimum weight
+among all connected spanning edge sets (`C26_mst_minimal`, exchange argument).
 `…_counterexample…` theorems exhibit the two defects of the pinned tree on the legacy model.
 -/
 namespace SgModel.Algo
@@ -179,14 +181,10 @@ theorem C26_counterexample_prim_parallel :
     (primLegacy (ofEdges 2 [(1, 0, 10), (1, 0, 1)])).1 = 10
     ∧ (prim (ofEdges 2 [(1, 0, 10), (1, 0, 1)])).1 = 1 := by decide
 
-/-- PARTIAL (spanning part only).  Full statement, not proved:
-`mstCheck vw w T = true ∧ w = (prim vw).1 → ∀ T' spanning tree of node 0's component of the
-underlying undirected multigraph, w ≤ weight T'` (needs the exchange argument / cycle
-property; the harness compares with a brute-force minimum on small multigraphs as *search*).
-Proved: an accepted answer is a set of real edges (either orientation, with their weights),
-the reported total is their weight, they connect exactly the weak component of node 0, and
-there are `|component| − 1` of them — i.e. a spanning tree of that component. -/
-theorem C26_mst_partial (vw : View) (total : Nat) (T : List Edge) (hn : vw.n ≠ 0)
+/-- the spanning-tree part of the certificate on a view: an accepted answer is a set of real
+edges (either orientation, with their weights), the reported total is their weight, they
+connect exactly the weak component of node 0, and there are `|component| − 1` of them -/
+theorem C26_mst_spanning (vw : View) (total : Nat) (T : List Edge) (hn : vw.n ≠ 0)
     (h : mstCheck vw total T = true) :
     (∀ e ∈ T, (e.1, e.2.1, e.2.2) ∈ edgesOf vw ∨ (e.2.1, e.1, e.2.2) ∈ edgesOf vw)
     ∧ (T.map (·.2.2)).sum = total
@@ -200,6 +198,52 @@ theorem C26_mst_partial (vw : View) (total : Nat) (T : List Edge) (hn : vw.n ≠
   have := congrArg (fun l => v ∈ l) h3
   simp only [mem_compW_iff, hv, true_and, eq_iff_iff] at this
   exact this
+
+/-- the nodes of node 0's component, each once -/
+theorem C26_comp_nodes_correct (E : List Edge) :
+    (compNodes E).Nodup ∧ ∀ x, x ∈ compNodes E ↔ Reach (sym (pairs E)) 0 x :=
+  ⟨nodup_dedup _, fun _ => by rw [compNodes, mem_dedup, mem_reachSet_iff]⟩
+
+/-- `T'` consists of edges of the undirected multigraph `E` (either orientation, same weight;
+repetitions allowed) and joins every node of node 0's component to node 0 -/
+def SpansComponent (E T' : List Edge) : Prop := SubE T' E ∧ Conn E T'
+
+/-- **MST minimality** (full strength; replaces the former partial theorem).  For every
+undirected multigraph `E` with weights in ℕ and every reported `(total, T)` accepted by
+`mstMinCheck` — real edges, `|component| − 1` of them, connecting the component of node 0,
+and the cycle property (the ends of every edge of the component are joined inside `T` by
+edges that are not heavier) — `T` is a spanning tree of that component with weight `total`,
+and **every** edge set that spans the component (in particular every spanning tree) weighs
+at least `total`.  Proof: exchange argument (`exchange_step`, `exchange_all`) plus
+"a connected graph on m nodes has at least m − 1 edges" (`count_le_edges`). -/
+theorem C26_mst_minimal (E T : List Edge) (total : Nat) (h : mstMinCheck E total T = true) :
+    SpansComponent E T ∧ T.length + 1 = (compNodes E).length ∧ wsum T = total
+    ∧ ∀ T', SpansComponent E T' → total ≤ wsum T' := by
+  simp only [mstMinCheck, Bool.and_eq_true, List.all_eq_true, decide_eq_true_eq, beq_iff_eq] at h
+  obtain ⟨⟨⟨⟨hsub, hsum⟩, hlen⟩, hreach⟩, hcyc⟩ := h
+  have hC := C26_comp_nodes_correct E
+  have hTconn : Conn E T := by
+    intro x hx
+    exact mem_reachSet_iff.mp (hreach x ((hC.2 x).mpr hx))
+  have hcert : TreeCert E T := by
+    refine ⟨hsub, ?_⟩
+    intro g hg hg1
+    simp only [cycleCert, List.all_eq_true, Bool.or_eq_true, Bool.not_eq_eq_eq_not, Bool.not_true,
+      decide_eq_false_iff_not, decide_eq_true_eq] at hcyc
+    rcases hcyc g hg with h | h
+    · exact absurd (mem_reachSet_iff.mpr hg1) h
+    · exact mem_reachSet_iff.mp h
+  refine ⟨⟨hsub, hTconn⟩, hlen, hsum, ?_⟩
+  intro T' hT'
+  obtain ⟨T'', h0, hconn'', hle⟩ := exchange_all hcert (foreign T T') T' rfl hT'.1 hT'.2
+  have := tree_le_of_inside hC.1 (fun x hx => (hC.2 x).mp hx) hlen hTconn h0 hconn''
+  omega
+
+/-- the certificate is satisfiable on the witness of the Prim defect: the lighter parallel
+edge is accepted as the MST, the heavier one is rejected by the cycle property -/
+example : mstMinCheck [(1, 0, 10), (1, 0, 1), (1, 2, 4)] 5 [(0, 1, 1), (1, 2, 4)] = true
+    ∧ mstMinCheck [(1, 0, 10), (1, 0, 1), (1, 2, 4)] 14 [(0, 1, 10), (1, 2, 4)] = false := by
+  decide +kernel
 
 /-! ## Triangles, LCC -/
 
